@@ -53,6 +53,20 @@ CHECKS = {
              "(value unit = default unit) the same is proved over ALL IEEE doubles incl. NaN, infinities and -0 (NaN skipped in flat Arrays).",
         note="Real mode: floats as exact reals; FP mode: z3 Float64 comparisons, numpy.isnan shimmed; array lengths 0..3 (quick) / 0..4 (thorough)",
         ref="DESIGN.md §4 C12"),
+    "C07": dict(
+        text="Programs over a fresh POSC database obtain quantities through 24 creation requests (all key forms, legacy, alias, unknown captions, "
+             "derived dict/list/operator forms), run one (quick) or two (thorough) operations of a 17-operation alphabet with SYMBOLIC amounts - so "
+             "every value-dependent path of each step is explored via z3 - and after every step re-check the observable snapshot of every quantity "
+             "alive in quantities_cache, identity of repeated requests, ==/!=/hash against a resolution model, copies, pickles and the read-only mutator.",
+        note="the state is discrete: the solver contributes path coverage and replayable models; aliasing needing more than two chained operations is outside",
+        ref="DESIGN.md §4 C07"),
+    "C13": dict(
+        text="One step of a 38-operation alphabet (arithmetic, comparison, conversion, validation, formatting, copy, pickle, ChangingIndex, FromScalars, "
+             "ConvertFractionValue, ChangeScalars) from a pool of 17 value objects with SYMBOLIC amounts over caller-owned list/tuple/numpy containers: on "
+             "every path (failing ones included) z3-explored by the real code, the snapshot of every pool member is unchanged, results are new objects and "
+             "copy/deepcopy/CreateCopy()/pickle round trips are equal. Inductive reading: no step mutates any member => no sequence does.",
+        note="numpy arrays modelled as object arrays incl. in-place (out=) ufunc semantics; two-step chains in thorough",
+        ref="DESIGN.md §4 C13"),
 }
 
 NOT_APPLICABLE = {
